@@ -600,7 +600,83 @@ def run(chk):
                         "next blocking point, no re-invocation after exit without PT_INIT (the generator stays inside this scope)",
                         "ev/cond/child are uninterpreted: cond() in {0, non-zero}, child() in the four pt_state_t values",
                         "all bodies of the generator's statement language up to the stated size, not all C programs"]
+    chk.rule("V3", "PT_WAIT_UNTIL / PT_EXIT_ON / PT_FAIL_ON test the user's condition against zero in its own type (no narrowing conversion on the way)")
     run_rules(chk, progs)
+    check_condition_transparency(chk)
+
+
+COND_MACROS = (("PT_WAIT_UNTIL", "PT_WAIT_UNTIL(%s);"), ("PT_EXIT_ON", "PT_EXIT_ON(%s);"), ("PT_FAIL_ON", "PT_FAIL_ON(%s);"))
+COND_TYPES = (("double", "d"), ("unsigned long long", "u"), ("float", "f"))
+NARROWING = ("fptosi", "fptoui", "trunc", "fptrunc", "sitofp", "uitofp", "ptrtoint")
+
+
+def check_condition_transparency(chk):
+    """V3: the condition a user passes to PT_WAIT_UNTIL / PT_EXIT_ON / PT_FAIL_ON is tested as C tests it in `if (c)`:
+    compared against zero IN ITS OWN TYPE.  A macro that funnels it through a narrower type first (a long parameter, an
+    int temporary) turns 0.5, 2^64 or a high-half flag into 'false'.  Decided on witness functions whose condition is
+    a parameter of a type wider than / different from long: the data flow from the parameter to the branch may widen,
+    compare against zero and negate, but never convert to a narrower or integer type before the comparison."""
+    lines = ["#include <librfn/protothreads.h>"]
+    names = []
+    for mname, tmpl in COND_MACROS:
+        for ty, tag in COND_TYPES:
+            fn = "w_%s_%s" % (mname.lower(), tag)
+            names.append((fn, mname, ty))
+            lines.append("int %s(pt_t *pt, %s c) { PT_BEGIN(pt); %s PT_END(); }" % (fn, ty, tmpl % "c"))
+    try:
+        m = build.compile_text("c08_cond.c", "\n".join(lines) + "\n", inline_except=())
+    except AnalysisError as e:
+        chk.unknown("V3.condition-type", "witness", "condition witnesses do not compile: %s" % str(e)[-300:])
+        return
+    n = 0
+    for fname, mname, ty in names:
+        fn = m.functions.get(fname)
+        inst_id = "%s(%s c)" % (mname, ty)
+        raw = set()                 # names of values that are still the user's condition (possibly widened)
+        argname = fn.args[1].name
+        bad = None
+        tested = 0
+        changed = True
+        while changed:
+            changed = False
+            for blk in fn.order:
+                for i in blk.insts:
+                    if i.is_dbg() or i.name in raw:
+                        continue
+                    ops = [o for o in i.ops if (o.k == "arg" and o.name == argname) or (o.k == "inst" and o.inst is not None and o.inst.name in raw)]
+                    if i.op == "call":
+                        ops = [o for o in i.args if (o.k == "arg" and o.name == argname) or (o.k == "inst" and o.inst is not None and o.inst.name in raw)]
+                    if not ops:
+                        continue
+                    if i.op in NARROWING:
+                        bad = bad or (i, "%s to %s" % (i.op, i.ty))
+                    elif i.op in ("phi", "bitcast", "freeze", "zext", "sext", "fpext", "select") or \
+                            (i.op == "call" and str(i.callee).startswith("llvm.expect")):
+                        if i.name:
+                            raw.add(i.name)
+                            changed = True
+                    elif i.op in ("icmp", "fcmp"):
+                        other = [o for o in i.ops if o not in ops]
+                        zero = other and (other[0].is_const_int() and other[0].uval == 0 or other[0].k == "fp" and float(other[0].d.get("v", 1)) == 0.0
+                                          or other[0].is_null())
+                        if zero:
+                            tested += 1
+                        else:
+                            bad = bad or (i, "compared with something other than zero")
+                    elif i.op == "call":
+                        bad = bad or (i, "passed to %s" % i.callee)
+        n += 1
+        if bad:
+            chk.ob("V3.condition-type", inst_id, False,
+                   "the user's condition is %s before it is tested (%s): a %s condition that is non-zero but whose converted value is 0 "
+                   "(0.5, 2^64, a flag in the upper half) is treated as false, so %s blocks/continues where `if (c)` would not"
+                   % (bad[1], bad[0].loc, ty, mname), "include/librfn/protothreads.h", mname)
+        elif not tested:
+            chk.unknown("V3.condition-type", inst_id, "no comparison of the condition against zero found in the witness")
+        else:
+            chk.ob("V3.condition-type", inst_id, True, "the condition reaches its test against zero in its own type (%d comparison sites)" % tested,
+                   "include/librfn/protothreads.h", mname)
+    chk.expect("V3", "condition-type witnesses", n, len(COND_MACROS) * len(COND_TYPES))
 
 
 def run_rules(chk, progs=None, limit=None):
